@@ -100,6 +100,23 @@ func genC10(seed uint64, tier string) *plan.Plan {
 		}
 	}
 	p.Phases = []plan.Phase{{Name: mode, Clients: []plan.Script{sc}}}
+	if mode != "maxidle" && r.Bool(500) {
+		// several writers insert fresh keys at the same time (evictions of one fragment overlap);
+		// the bounds are checked once they are all done
+		burst := plan.Phase{Name: "burst", Yields: true}
+		for w, nw := 0, r.Range(2, 6); w < nw; w++ {
+			ws := entry(r, 10+w, n)
+			for i, k := 0, r.Range(20, 80); i < k; i++ {
+				ws.Ops = append(ws.Ops, plan.Op{K: "put", Key: fmt.Sprintf("b%d%04d", w, i), Val: fmt.Sprintf("%016d", i), D: int64(Pick(r, 0, 0, 100, 1000))})
+			}
+			burst.Clients = append(burst.Clients, ws)
+		}
+		st := plan.Script{ID: 1, Kind: "ctl"}
+		for m := 0; m < n; m++ {
+			st.Ops = append(st.Ops, plan.Op{K: "ctl.stats", M: m})
+		}
+		p.Phases = append(p.Phases, burst, plan.Phase{Name: "burst-stats", Clients: []plan.Script{st}})
+	}
 	p.Variant = fmt.Sprintf("%s/keys%d/inuse%d/idle%d/P%d/S%d/N%d/R%d", mode, p.Cluster.MaxKeys, p.Cluster.MaxInuse, p.Cluster.MaxIdleMs, parts, p.Cluster.LRUSamples, n, p.Cluster.ReplicaCount)
 	p.Params["entry_size"] = int64(entrySize)
 	rounds := 1
